@@ -83,13 +83,15 @@ macro "kernel_norm" : tactic => `(tactic|
     List.isEmpty_nil, Option.isNone_none, Option.isNone_some, Bool.false_eq_true, ↓reduceIte])
 
 /-- both sides perform the same effects in the same order: split every `if`, step under every bind of a
-    call that is stuck (`interp1d`, `interp3d`), close the leaves by `rfl` -/
+    call that is stuck (`interp1d`, `interp3d`), close the leaves by `rfl` (at reducible transparency: after
+    `kernel_norm` equal leaves are syntactically equal, and a leaf that differs after an edit of the Rust text
+    fails at once instead of unfolding the field structure until the heartbeat limit) -/
 macro "kernel_eq" : tactic => `(tactic| (
   kernel_norm
   repeat' (first
     | (split_ifs <;> try kernel_norm)
     | (apply bind_congr; intro _; try kernel_norm)
-    | rfl)))
+    | with_reducible rfl)))
 
 /-! ### FuelConverter -/
 
